@@ -90,6 +90,7 @@ ASSUMPTIONS = [
     "SimpleITK 2.5 (ITK MetaIO / NIfTI / NRRD readers and writers) and numpy are the trusted base; a format/dtype that SimpleITK itself cannot write or does not preserve is counted as undefined for the s2d direction",
     "header tolerances (copies, not computations): 8 ulp(float32) = 8 x 2^-23 x (|center| + extent) for origin (origin<->center conversions inside Grid, worst case 5.5 ulp), 8 x 2^-23 relative for spacing, 8 x 2^-23 absolute for direction cosines; measured <= 0.7 ulp; grids 'scan' and 'fine' need all 9 significant digits",
     "values must be equal exactly and the returned dtype must be the stored dtype (all five listed dtypes are native in every listed format)",
+    "sizes with one single-sample axis ((X,1), (1,Y), (X,Y,1), (X,1,Z), (1,Y,Z)) are enumerated for every format; the grid read back must have the D written. Undefined: NIfTI vector images with a trailing single-sample axis (ITK's vector convention cannot represent them; SimpleITK itself does not preserve them) and the CUBE_CORNERS start representation of a flow field on such a grid",
     "sizes <= 7 per axis; .nia is excluded (neither nibabel nor SimpleITK handle it)",
 ]
 MIN_NONTRIVIAL = {"quick": 7500, "thorough": 35000}
@@ -146,7 +147,34 @@ def grid_kinds(tier):
     return GRID_KINDS if tier == "thorough" else ("default", "rot", "scan", "fine")
 
 
+def singleton_sizes(D):
+    """Sizes with one single-sample axis: the D of the grid read back must still be the D written."""
+    return [(4, 1), (1, 3)] if D == 2 else [(4, 3, 1), (4, 1, 2), (1, 3, 2)]
+
+
+def singleton_factors(tier, D):
+    """(channels, dtypes, grid kinds) crossed with the singleton sizes: thinned in the quick tier, full in thorough."""
+    if tier == "thorough":
+        return (1, 2, 3), tuple(NP_DT), grid_kinds(tier)
+    return (1, D), ("float32",), ("default", "scan")
+
+
 def configs(tier, seed):
+    out = _regular_configs(tier, seed)
+    for fmt in formats(tier):
+        for D in (2, 3):
+            chans, dts, gks = singleton_factors(tier, D)
+            for Cn in chans:
+                for dt in dts:
+                    for size in singleton_sizes(D):
+                        for gk in gks:
+                            for compress in (True, False):
+                                out.append({"fmt": fmt, "D": D, "C": Cn, "dt": dt, "size": list(size), "gk": gk,
+                                            "grid": grid_spec(D, size, gk, seed), "compress": compress, "seed": seed})
+    return out
+
+
+def _regular_configs(tier, seed):
     out = []
     for fmt in formats(tier):
         for D in (2, 3):
@@ -164,6 +192,8 @@ def bounds(tier):
     return {
         "formats": formats(tier), "D": [2, 3], "channels": [1, 2, 3], "dtypes": list(NP_DT), "grids": list(grid_kinds(tier)),
         "compress": [True, False], "sizes": {"2": [list(s) for s in sizes(2, tier)], "3": [list(s) for s in sizes(3, tier)]},
+        "singleton_sizes": {"2": [list(s) for s in singleton_sizes(2)], "3": [list(s) for s in singleton_sizes(3)]},
+        "singleton_factors": {"channels": list(singleton_factors(tier, 3)[0]), "dtypes": list(singleton_factors(tier, 3)[1]), "grids": list(singleton_factors(tier, 3)[2])},
         "configurations": len(configs(tier, 0)), "chains": ["d2d", "s2d", "flow"],
         "entry_points": ["write_image/read_image", "Image.write/Image.read", "Image.to_uri/Image.from_uri", "Grid.from_file", "FlowField.write/read"],
         "path_forms": ["str", "pathlib.Path", "file:// URI (Image.to_uri/from_uri)"], "max_write_read_rounds": 2,
@@ -322,6 +352,18 @@ def sitk_image(cfg, data: np.ndarray, r: RefGrid):
     return img
 
 
+NIFTI_SUFFIXES = (".nii", ".nii.gz", ".hdr", ".img", ".img.gz", ".hdr.gz", ".nia")
+NIFTI_VECTOR_REASON = (
+    "NIfTI vector image whose LAST spatial axis has one sample: the vector convention (dim = [5, nx, ny, nz, 1, C], spatial "
+    "dimension = last non-singleton axis; ITK itkNiftiImageIO.cxx L1112-1156, cited by deepali's reader and followed by its "
+    "writer) cannot tell it from an image of one dimension less - SimpleITK does not preserve it either"
+)
+
+
+def nifti_cannot_represent(cfg) -> bool:
+    return cfg["fmt"] in NIFTI_SUFFIXES and cfg["C"] > 1 and cfg["size"][-1] == 1
+
+
 def pathform(p: str, form: str):
     if form == "uri":
         return "file://" + p
@@ -381,6 +423,9 @@ def run_d2d(cfg, entry: str, pform: str, tmp: str) -> Rec:
     from deepali.core.grid import Grid
 
     rec = Rec()
+    if nifti_cannot_represent(cfg):
+        rec.undef.append(NIFTI_VECTOR_REASON)
+        return rec
     pre = sig_prefix(cfg, "d2d", f"{entry}:{pform}")
     r = rg.ref_grid(cfg["grid"])
     data = make_data(cfg)
@@ -546,6 +591,9 @@ def run_flow(cfg, start: str, explicit: bool, pform: str, tmp: str) -> Rec:
     from deepali.data.flow import FlowField
 
     rec = Rec()
+    if nifti_cannot_represent(cfg):
+        rec.undef.append(NIFTI_VECTOR_REASON)
+        return rec
     pre = sig_prefix(cfg, "flow", f"{'explicit' if explicit else 'default'}:{pform}") + f"/start={start}"
     r = rg.ref_grid(cfg["grid"])
     D = cfg["D"]
@@ -659,6 +707,8 @@ def cases_of(cfg):
             out.append({"chain": "s2d", "entry": entry, "path": pform})
     if cfg["C"] == cfg["D"] and cfg["dt"] in ("float32", "float64"):
         for start in AXES:
+            if start == "cube_corners" and min(cfg["size"]) == 1:
+                continue  # extrema -1/+1 of CUBE_CORNERS coincide for a single sample: the representation does not exist
             for explicit in (False, True):
                 out.append({"chain": "flow", "start": start, "explicit": explicit, "path": "str" if (AXES.index(start) + explicit) % 2 == 0 else "Path"})
     return out
